@@ -62,8 +62,63 @@ func init() {
 				c.Fail("C23a/CalculateCredit/weighted-average-with-weights-summing-to-denominator", c.P.InstrPos(ret), "credit is "+trunc(d, 200)+" "+why)
 			}
 		}
-		if n != 1 {
+		if n == 0 {
+			c.Fail("C23a/CalculateCredit/weighted-average-with-weights-summing-to-denominator", c.P.Pos(cc.Pos()), "the credit is no longer computed as amount.MulRaw(hours).Add(credit.MulRaw(hours)).QuoRaw(total hours) on arbitrary-precision integers (native integer products of amounts and hours can wrap)")
+		} else if n != 1 {
 			c.Undecided("C23a: expected one averaged return in CalculateCredit, found %d", n)
+		}
+
+		c.Rule("C23d bookkeeping: Delegation.Credit and CreditTimestamp are assigned only in SetDelegation, from CalculateCredit of the delegation as stored before the change (GetDelegation of the same provider and delegator); the delegations collection is written only by SetDelegation (and genesis)")
+		sd := c.Fn(dsK + "SetDelegation")
+		for _, fld := range []string{"Credit", "CreditTimestamp"} {
+			nw := 0
+			for _, a := range c.fieldAccesses("x/dualstaking/types.Delegation." + fld) {
+				if a.Kind != "write" || a.Fresh || !inProd(a.Fn) || strings.HasSuffix(c.P.InstrPos(a.Instr), ".pb.go") || strings.Contains(c.P.InstrPos(a.Instr), ".pb.go:") {
+					continue
+				}
+				nw++
+				if topName(a.Fn) == dsK+"SetDelegation" {
+					v := ir.Desc(a.Instr.(*ssa.Store).Val)
+					idx := map[string]string{"Credit": "#0", "CreditTimestamp": "#1"}[fld]
+					if strings.HasPrefix(v, "call("+dsK+"CalculateCredit)(recv,param#0,call("+dsK+"GetDelegation)(recv,param#0,") && strings.HasSuffix(v, idx) {
+						c.OK("C23d/SetDelegation/"+fld+"=CalculateCredit(stored-delegation)", c.P.InstrPos(a.Instr), "")
+					} else {
+						c.Fail("C23d/SetDelegation/"+fld+"=CalculateCredit(stored-delegation)", c.P.InstrPos(a.Instr), fld+" is set to "+trunc(v, 120))
+					}
+				} else {
+					c.Fail("C23d/Delegation."+fld+"/written-only-by-SetDelegation", c.P.InstrPos(a.Instr), fld+" is also assigned in "+ir.FuncName(a.Fn)+": the credit no longer is the time average maintained by SetDelegation")
+				}
+			}
+			if nw == 0 {
+				c.Undecided("C23d: no production store to Delegation.%s found", fld)
+			}
+		}
+		if sd != nil {
+			nset := 0
+			for _, f := range c.P.AllFuncs {
+				if !inProd(f) || !strings.HasPrefix(ir.FuncName(f), "x/dualstaking/") {
+					continue
+				}
+				ir.EachInstr(f, func(in ssa.Instruction) {
+					call := ir.CallOf(in)
+					if call == nil || !strings.HasPrefix(ir.CalleeName(call), "cosmossdk.io/collections.") || !strings.HasSuffix(ir.CalleeName(call), "Map.Set") {
+						return
+					}
+					if len(call.Args) == 0 || !strings.HasSuffix(ir.Desc(call.Args[0]), ".delegations") {
+						return
+					}
+					nset++
+					tn := topName(f)
+					if tn != dsK+"SetDelegation" && !strings.Contains(tn, "InitGenesis") && !strings.Contains(tn, "Migrat") {
+						c.Fail("C23d/delegations.Set/only-in-SetDelegation", c.P.InstrPos(in), "the delegations collection is written directly in "+ir.FuncName(f)+", bypassing the credit update of SetDelegation")
+					}
+				})
+			}
+			if nset >= 2 {
+				c.OK("C23d/delegations.Set/only-in-SetDelegation", c.P.Pos(sd.Pos()), itoa(nset)+" write sites, all in SetDelegation/genesis/migration")
+			} else if nset == 0 {
+				c.Undecided("C23d: no write to the delegations collection found")
+			}
 		}
 
 		c.Rule("C23b weights: each hour count in CalculateCredit is 0 or (later.Unix() − earlier.Unix())/3600 assigned under earlier.Before(later); timestamps are clamped to 30 days before the block time")
